@@ -1,10 +1,61 @@
-(* C06 -- placeholder until the proofs land *)
-From Tola Require Import Py.Base Model.Fragment Model.Fasta Model.AgpTpf.
+(* C06 -- Every AGP the tools write is coordinate-valid.
+   Only statements, each closed by [exact] of a lemma from Proofs/AgpValid.v.
+   Every AGP (asm-format, pretext-to-asm, the .agp cache) is written by
+   format_agp from an assembly value, so the law is stated for all assemblies. *)
+From Tola Require Import Py.Base Py.Dec Model.Fragment Model.Fasta Model.AgpTpf Model.AgpTpfSpec
+  Proofs.AgpValid.
 
-Lemma C06_format_example :
-  format_agp (mkAsm [] [(s "s1", [RF (mkFrag (-1) (s "c") 5 9 (-1) [s "Painted"]); RG (mkGap 200 (s "scaffold"))])])
-  = Ok (s "s1	1	5	1	W	c	5	9	-	Painted
-s1	6	205	2	U	200	scaffold	yes	proximity_ligation
-").
+(* the text lines of a scaffold are the rendering (decimal, injective) of its
+   numeric view [agp_nums] *)
+Theorem C06_lines_are_rendered_nums : forall name rows p i,
+  agp_rows name rows p i = mapM (render_num name) (agp_nums rows p i).
+Proof. exact agp_rows_render. Qed.
+Print Assumptions C06_lines_are_rendered_nums.
+
+(* the rows of each object tile it from 1 with no hole or overlap, part numbers
+   count 1,2,3..., a sequence row's object span equals its component span and a
+   gap row's span equals its stated length (format_agp starts at p = 0, i = 0) *)
+Theorem C06_tiles : forall rows p i, tiles (agp_nums rows p i) (p + 1) (i + 1).
+Proof. exact agp_nums_tiles. Qed.
+Print Assumptions C06_tiles.
+
+(* the last object end equals the scaffold's length (= the FASTA record length, C03) *)
+Theorem C06_last_end : forall rows p i, last_end (agp_nums rows p i) p = p + rows_len rows.
+Proof. exact agp_nums_last_end. Qed.
+Print Assumptions C06_last_end.
+
+(* one line per row, in order *)
+Theorem C06_one_line_per_row : forall rows p i, map an_row (agp_nums rows p i) = rows.
+Proof. exact agp_nums_rows. Qed.
+Print Assumptions C06_one_line_per_row.
+
+(* gap rows carry U, their length, their gap type and linkage yes; sequence rows carry W *)
+Theorem C06_gap_columns : forall name l g cols, an_row l = RG g -> render_num name l = Ok cols ->
+  nth_error cols 4 = Some (s "U") /\ nth_error cols 5 = Some (str_of_Z (g_len g))
+  /\ nth_error cols 6 = Some (g_type g)
+  /\ nth_error cols 7 = Some (s "yes") /\ length cols = 9%nat.
+Proof. exact render_num_gap. Qed.
+Print Assumptions C06_gap_columns.
+
+Theorem C06_frag_columns : forall name l f cols, an_row l = RF f -> render_num name l = Ok cols ->
+  nth_error cols 4 = Some (s "W") /\ nth_error cols 5 = Some (f_name f)
+  /\ nth_error cols 6 = Some (str_of_Z (f_start f)) /\ nth_error cols 7 = Some (str_of_Z (f_end f)).
+Proof. exact render_num_frag. Qed.
+Print Assumptions C06_frag_columns.
+
+(* format_agp succeeds on every assembly whose fragment strands are 0, 1 or -1
+   (what Fragment.__init__ enforces) *)
+Theorem C06_format_total : forall a,
+  Forall (fun sc => Forall (fun r => match r with
+                                     | RF f => f_strand f = 0 \/ f_strand f = 1 \/ f_strand f = -1
+                                     | RG _ => True end) (snd sc)) (a_scaffolds a) ->
+  exists t, format_agp a = Ok t.
+Proof. exact format_agp_total. Qed.
+Print Assumptions C06_format_total.
+
+(* non-vacuity: the numeric view of a concrete scaffold *)
+Example C06_example :
+  map (fun l => (an_beg l, an_end l, an_part l))
+      (agp_nums [RF (mkFrag (-1) (s "c") 5 9 (-1) []); RG (mkGap 200 (s "scaffold")); RF (mkFrag (-1) (s "d") 1 1 1 [])] 0 0)
+  = [(1, 5, 1); (6, 205, 2); (206, 206, 3)].
 Proof. vm_compute. reflexivity. Qed.
-Print Assumptions C06_format_example.
